@@ -1,2 +1,159 @@
-From PK Require Import Uid.Model Uid.Cases.
-Theorem c07_placeholder : True. Proof. exact I. Qed.
+(* C07 - Unique identifiers are never reused; a destroyed identifier stays dead.
+   Model: theories/Uid/Model.v (tied to /repo by harness/c07.py, Coq compares: Uid/Cases.v).
+   Every theorem quantifies over ALL histories (lists of requests by any identities under any
+   protocol version, with restarts at arbitrary points) by induction, not over a finite sweep. *)
+From PK Require Import Uid.Model Uid.Proofs.
+From Coq Require Import ZArith List Bool Sorted.
+Import ListNotations.
+Open Scope Z_scope.
+
+(* ---------- the allocator invariant ---------- *)
+
+Theorem inv_init : Inv init_store.
+Proof. exact Proofs.inv_init. Qed.
+Print Assumptions inv_init.
+
+Theorem inv_step : forall ver who st ph it, Inv st -> Inv (snd (fst (step_item ver who st ph it))).
+Proof. exact Proofs.inv_step. Qed.
+Print Assumptions inv_step.
+
+Theorem inv_history : forall evs st, Inv st -> Inv (final_store st evs).
+Proof. exact Proofs.inv_history. Qed.
+Print Assumptions inv_history.
+
+(* a non-trivial state satisfying the invariant: three objects, one destroyed, a restart *)
+Definition ex_history : list event :=
+  [ EReq {| rq_who := 0; rq_ver := 12; rq_cont := false; rq_items := [{| i_op := OCreateKeyPair; i_gate := true |}] |};
+    EReq {| rq_who := 1; rq_ver := 20; rq_cont := false; rq_items := [{| i_op := ORegister TCert; i_gate := true |}] |};
+    EReq {| rq_who := 1; rq_ver := 12; rq_cont := false; rq_items := [{| i_op := ODestroy (Some 3); i_gate := true |}] |};
+    ERestart;
+    EReq {| rq_who := 2; rq_ver := 12; rq_cont := true; rq_items := [{| i_op := OCreate; i_gate := true |};
+                                                                     {| i_op := OAddr AGet None; i_gate := true |}] |} ].
+Example ex_history_state : uids (final_store init_store ex_history) = [1; 2; 4] /\ next_uid (final_store init_store ex_history) = 5.
+Proof. vm_compute. auto. Qed.
+Example ex_history_inv : Inv (final_store init_store ex_history).
+Proof. apply Proofs.inv_reachable. Qed.
+
+(* ---------- freshness ---------- *)
+
+(* one operation: every identifier it issues lies in [next_uid before, next_uid after), is not the
+   identifier of any object in the store, and a response never carries an identifier twice *)
+Theorem issued_fresh_item : forall ver who st ph it r st' ph' ids,
+  Inv st -> step_item ver who st ph it = (r, st', ph') -> r = RIssued ids ->
+  Forall (fun i => next_uid st <= i < next_uid st' /\ ~ In i (uids st)) ids /\ NoDup ids.
+Proof. exact Proofs.issued_fresh_item. Qed.
+Print Assumptions issued_fresh_item.
+
+(* whole histories: the issue log is exactly next_uid, next_uid+1, ... - strictly increasing, so no
+   identifier is ever issued twice, whatever was destroyed in between and wherever the server restarted *)
+Theorem issue_log_consecutive : forall evs st,
+  consec (next_uid st) (issue_log (history_entries st evs)) (next_uid (final_store st evs)).
+Proof. exact Proofs.issue_log_consecutive. Qed.
+Print Assumptions issue_log_consecutive.
+
+Theorem issue_log_increasing : forall evs st, StronglySorted Z.lt (issue_log (history_entries st evs)).
+Proof. exact Proofs.issue_log_increasing. Qed.
+Print Assumptions issue_log_increasing.
+
+Theorem issue_log_nodup : forall evs st, NoDup (issue_log (history_entries st evs)).
+Proof. exact Proofs.issue_log_nodup. Qed.
+Print Assumptions issue_log_nodup.
+
+(* identifiers issued after any point of a history (e.g. after a restart) exceed all issued before it *)
+Theorem issued_fresh : forall e1 e2 st i j,
+  In i (issue_log (history_entries st e1)) ->
+  In j (issue_log (history_entries (final_store st e1) e2)) ->
+  i < j.
+Proof. exact Proofs.issued_fresh. Qed.
+Print Assumptions issued_fresh.
+
+Theorem history_split : forall e1 e2 st,
+  history_entries st (e1 ++ e2) = history_entries st e1 ++ history_entries (final_store st e1) e2 /\
+  final_store st (e1 ++ e2) = final_store (final_store st e1) e2.
+Proof. exact Proofs.history_split. Qed.
+Print Assumptions history_split.
+
+(* and never collide with an object that was in the database when the history began *)
+Theorem issued_not_preexisting : forall evs st i,
+  Inv st -> In i (issue_log (history_entries st evs)) -> next_uid st <= i /\ ~ In i (uids st).
+Proof. exact Proofs.issued_not_preexisting. Qed.
+Print Assumptions issued_not_preexisting.
+
+Example ex_issue_log : issue_log (history_entries init_store ex_history) = [1; 2; 3; 4].
+Proof. vm_compute. reflexivity. Qed.
+
+(* ---------- destroyed identifiers stay dead ---------- *)
+
+Theorem destroy_makes_dead : forall ver who st ph tgt g st' ph',
+  Inv st -> step_item ver who st ph {| i_op := ODestroy tgt; i_gate := g |} = (RDestroyed, st', ph') ->
+  exists u, resolve tgt ph = Some u /\ In u (uids st) /\ Dead u st' /\ st' = remove_obj u st /\ ph' = ph.
+Proof. exact Proofs.destroy_makes_dead. Qed.
+Print Assumptions destroy_makes_dead.
+
+(* respects_dead u e: if item e refers to u directly or through the placeholder it answers RNotFound
+   (RNotSupported when the version check comes first); if it names u as wrapping key or derivation base
+   it fails without reaching anything; if it is a Locate it does not list u; if it issues, not u. *)
+Theorem destroyed_dead : forall ver who st ph tgt g st1 ph1,
+  Inv st -> step_item ver who st ph {| i_op := ODestroy tgt; i_gate := g |} = (RDestroyed, st1, ph1) ->
+  exists u, resolve tgt ph = Some u /\ In u (uids st) /\
+    (forall cont rest es st2 ph2, run_items ver who cont st1 ph1 rest = (es, st2, ph2) ->
+        Dead u st2 /\ Forall (respects_dead u) es /\
+        forall evs, ~ In u (uids (final_store st2 evs)) /\ Forall (respects_dead u) (history_entries st2 evs)).
+Proof. exact Proofs.destroyed_dead. Qed.
+Print Assumptions destroyed_dead.
+
+Theorem dead_forever : forall u st evs, Dead u st ->
+  Dead u (final_store st evs) /\ Forall (respects_dead u) (history_entries st evs).
+Proof. exact Proofs.dead_forever. Qed.
+Print Assumptions dead_forever.
+
+(* an item that refers to a dead identifier changes nothing *)
+Theorem dead_item_answer : forall u ver who st ph it r st' ph',
+  Dead u st -> step_item ver who st ph it = (r, st', ph') ->
+  respects_dead u {| e_item := it; e_ph := ph; e_store := st; e_resp := r |} /\
+  ((direct_target it ph = Some u \/ In u (indirect_refs it)) -> st' = st).
+Proof. exact Proofs.dead_item_answer. Qed.
+Print Assumptions dead_item_answer.
+
+(* inside a batch the placeholder is what the request started with (None, see Uid.Model.process) or an
+   identifier issued by this very batch: it never denotes an object older than the request *)
+Theorem placeholder_fresh : forall ver who cont its st ph es st' ph',
+  run_items ver who cont st ph its = (es, st', ph') ->
+  Forall (fun e => e_ph e = ph \/ exists i, e_ph e = Some i /\ next_uid st <= i) es.
+Proof. exact Proofs.placeholder_fresh. Qed.
+Print Assumptions placeholder_fresh.
+
+(* the hypotheses are satisfiable: a real Destroy in a populated store, then the dead identifier is addressed *)
+Example ex_destroy :
+  let st := final_store init_store (firstn 2 ex_history) in
+  step_item 12 1 st None {| i_op := ODestroy (Some 3); i_gate := true |} = (RDestroyed, remove_obj 3 st, None)
+  /\ Inv st /\ uids st = [1; 2; 3].
+Proof. split; [vm_compute; reflexivity|]. split; [apply Proofs.inv_history; apply Proofs.inv_init | vm_compute; reflexivity]. Qed.
+Example ex_dead_answers :
+  map e_resp (history_entries (remove_obj 3 (final_store init_store (firstn 2 ex_history)))
+    [EReq {| rq_who := 1; rq_ver := 12; rq_cont := true;
+             rq_items := [{| i_op := OAddr AGet (Some 3); i_gate := true |}; {| i_op := ODestroy (Some 3); i_gate := true |};
+                          {| i_op := OGetWrapped (Some 1) 3; i_gate := true |}; {| i_op := ODeriveKey [3] TSym; i_gate := true |};
+                          {| i_op := OLocate; i_gate := true |}; {| i_op := OCreate; i_gate := true |}] |}])
+  = [RNotFound; RNotFound; RWrapNotFound; RNotFound; RLocated [1]; RIssued [4]].
+Proof. vm_compute. reflexivity. Qed.
+
+(* ---------- Destroy leaves every other object alone ---------- *)
+
+Theorem destroy_frame : forall ver who st ph tgt g st' ph',
+  step_item ver who st ph {| i_op := ODestroy tgt; i_gate := g |} = (RDestroyed, st', ph') ->
+  exists u, resolve tgt ph = Some u /\
+    objs st' = filter (fun o => negb (uid o =? u)) (objs st) /\
+    next_uid st' = next_uid st /\ ph' = ph /\
+    (forall o, uid o <> u -> (In o (objs st') <-> In o (objs st))) /\
+    (forall v, v <> u -> find_obj v st' = find_obj v st) /\
+    (forall w p v, v <> u -> access w p (Some v) st' = access w p (Some v) st).
+Proof. exact Proofs.destroy_frame. Qed.
+Print Assumptions destroy_frame.
+
+Theorem destroy_frame_answers : forall u st ver who ph k tgt g,
+  resolve tgt ph <> Some u ->
+  fst (fst (step_item ver who (remove_obj u st) ph {| i_op := OAddr k tgt; i_gate := g |})) =
+  fst (fst (step_item ver who st ph {| i_op := OAddr k tgt; i_gate := g |})).
+Proof. exact Proofs.destroy_frame_answers. Qed.
+Print Assumptions destroy_frame_answers.
